@@ -211,10 +211,14 @@ SketchStep ==
          f == pc.flip
          det == Family(cfg.method) \in {"sdc", "sdc2"}
          prev == IF k = 1 THEN 1 ELSE env[k]
-         ne == IF det THEN Cap(pc.cap, Min(prev * d, Above(b, k, f))) ELSE pc.cap IN
+         full == Min(prev * d, Above(b, k, f))
+         ne == IF det THEN Cap(pc.cap, full) ELSE pc.cap IN
      /\ env' = [env EXCEPT ![k + 1] = ne]
+     \* the deterministic sketch is a truncated SVD of the left block as the input's gauge presents it; a random
+     \* sketch with at least rank-many rows keeps the row space (general position)
+     /\ lossy' = (lossy \/ (det /\ ne < full))
      /\ IF k + 1 < L THEN Goto("sketch", k + 1) ELSE Goto("project", L)
-  /\ UNCHANGED <<cfg, b, vr, iso, lossy>>
+  /\ UNCHANGED <<cfg, b, vr, iso>>
 
 ProjectStep ==
   /\ pc.ph = "project"
@@ -288,7 +292,8 @@ BondCap == (Done /\ cfg.cap > 0) => \A k \in DOMAIN b : b[k] <= cfg.cap
 CentreWherePromised ==
   Done => LET c == PromisedCentre(cfg, L) IN
           c > 0 => CanonicalAround(c, [t \in 1..L |-> iso[t] = "L"], [t \in 1..L |-> iso[t] = "R"])
-ValueKept == (Done /\ (cfg.cap = 0 \/ \A k \in DOMAIN vr : cfg.cap >= Rank0(k))) => ~lossy
+ValueKept == (Done /\ NothingToTruncate(cfg.method, cfg.cap, TRUE, [k \in DOMAIN vr |-> Rank0(k)],
+                                        [k \in DOMAIN vr |-> cfg.r + cfg.x])) => ~lossy
 \* a rejection only where the documentation demands a cap
 RejectOnlyDocumented == pc.ph = "rejected" => (cfg.cap = 0 /\ cfg.method \in NeedsCap)
 =============================================================================
